@@ -184,6 +184,20 @@ claim("C17", "other",
       "static analysis: closure-capture kind inference + twin comparison in term and trace mode (partial evaluation)",
       "DESIGN.md §5 C17")
 
+claim("C19", "other",
+      "The counting and the filling pass of the radius search are interpreted on symbolic coordinates and the predicates they "
+      "ask are compared term by term over the loop nest; the interior solution of the closest-point routine is proved "
+      "stationary (two polynomial identities) and its result on 88 (thorough 110) exact rational segment configurations - "
+      "generic, each clamp, parallel, anti-parallel, collinear, degenerate, with reversals and swaps - is compared with an "
+      "exact reference minimiser; the refinement's midpoint/argument/fallback structure is extracted; the backend is "
+      "interpreted on representative clouds with symbolic 6-D states: delta_v is proved to be the norm of the velocity "
+      "difference of the very states reported, thresholds, labels, indices, mutual-nearest pairing and sort order are "
+      "compared with the reference.",
+      "Trusted: kpe semantics, the reference minimiser (candidate enumeration in rational arithmetic). Not decided: "
+      "optimality of the clamped case analysis for ALL configurations (real quantifier elimination; solver family).",
+      "static analysis: partial evaluation on symbolic data along representative paths + exact reference comparison",
+      "DESIGN.md §5 C19")
+
 PENDING = ["C02", "C03", "C04", "C05", "C06", "C07", "C08", "C09", "C10", "C11", "C12", "C13", "C14", "C15",
            "C16", "C17", "C18", "C19", "C20"]
 
